@@ -46,8 +46,8 @@ MANIFEST = {
     'note': 'Trusted: Coq kernel/vm_compute; specification coq/theory/ExpPoly.v (signals, D, L) and TimeDomCircuit.v (textbook laws); the '
             'sympy-based parsers in tools/impl_timedom.py; translators tools/tr_stamps.py, tools/tr_switch.py. Partial: poles are found by '
             'sympy (oracle, accepted only through the verified certificate check pf_check), so only Gaussian-rational natural frequencies '
-            'are compared inside Coq; symbolic element values are covered by the theorems only. ode_from_mna excludes dc analyses, non-constant '
-            'gains and coupled inductors with initial currents (there the K stamp omits M*i0k: recorded finding). The switch theorems are about '
+            'are compared inside Coq; symbolic element values are covered by the theorems only. ode_from_mna excludes dc analyses and non-constant '
+            'gains; coupled inductors with initial currents are covered for the ivp kind. The switch theorems are about '
             'the specification and the source-extracted comparisons; the loop of convert_IVP is tied by an instrumented run, not translated.',
     'technique': 'Coq proof over an abstract signal algebra + per-class transfer to the C01 stamp semantics + in-Coq correspondence '
                  'evaluation with verified per-case law checking + exact sympy search oracle',
@@ -56,7 +56,6 @@ MANIFEST = {
 THEORY = ['FieldSec', 'PolyQ', 'QcI', 'ExpPoly', 'ILT', 'ILTResidue', 'ILTCorr', 'Circuit', 'MNA', 'CircuitLinear',
           'TimeDom', 'TimeDomCircuit', 'TimeDomCorr']
 
-KEY_KIC = 'K:coupled-inductors-with-initial-current:mutual-ic-term-missing'
 KEY_F10 = 'ilt:repeated-complex-natural-frequency'
 KEY_DELAY_IVP = 'ilt:unexpanded-delayed-terms:initial-value-problem-with-delayed-source'
 
@@ -598,7 +597,7 @@ def corpus_cases(rng):
     c.add('R', 'R1', (1, 0), R=2)
     c.add('C', 'C1', (1, 0), C=1)
     out.append(build_case(c, rng))
-    # coupled inductors with initial currents (K stamp has no mutual initial-condition term)
+    # coupled inductors with initial currents: i_L1(0+) = 3, i_L2(0+) = 1 (the K stamp carries the mutual flux M i0k)
     c = Ckt(['corpus', 'coupled', 'k_ic'])
     c.add('L', 'L1', (1, 0), L=2, i0=3)
     c.add('R', 'R1', (1, 0), R=1)
@@ -1075,9 +1074,7 @@ def classify_circuit(case, wr, codes, oracle_bad, meta):
         if b.get('undecided'):
             continue        # a constant outside the exactly decidable class is not evidence of a violation (counted in the histogram)
         li = b.get('law', -1)
-        if li >= 0 and laws[li]['k'] == 'L' and laws[li]['ms'] and gen['k_ic'] and 'i(0+)' in b['what']:
-            out.append((KEY_KIC, b['what'], True))
-        elif delayed_ivp:
+        if delayed_ivp:
             out.append((KEY_DELAY_IVP, b['what'], True))
         elif f10:
             out.append((KEY_F10, b['what'], True))
@@ -1091,9 +1088,7 @@ def classify_circuit(case, wr, codes, oracle_bad, meta):
         if k == 4:
             li = meta['laws_used'][j]
             l = laws[li]
-            if l['k'] == 'L' and l['ms'] and gen['k_ic']:
-                out.append((KEY_KIC, 'the s-domain solution violates V = L(sI - i0) + M(sI_k - i0k) for %s (mutual initial-current term missing)' % l['name'], True))
-            elif delayed_ivp:
+            if delayed_ivp:
                 out.append((KEY_DELAY_IVP, 'law %s fails on the model inverse' % law_name(li), have_real))
             elif f10:
                 out.append((KEY_F10, 'law %s fails on the model inverse' % law_name(li), have_real))
